@@ -20,6 +20,8 @@ structure MReq where
   grp : Option String := none
   /-- the connection the request was last written to (harness annotation) -/
   conn : Option Nat := none
+  /-- EXTRA: written since its broker client last got a new connection (or issued since) -/
+  resent : Bool := true
   deriving Repr, DecidableEq
 
 structure MSt where
@@ -39,6 +41,8 @@ structure MSt where
   /-- EXTRA: connections that must be told to close before the step ends / already told -/
   owedLose : List Nat := []
   gone : List Nat := []
+  /-- EXTRA: broker clients that reported a new connection and whose requests have not been looked at yet -/
+  reconn : List Nat := []
   extraFails : List String := []
   deriving Repr
 
@@ -71,7 +75,13 @@ def endStep (s : MSt) : MSt :=
   let s2 := match s1.lateOf with
     | some k => if s1.nobs == 1 then s1 else fail s1 s!"late reply to request {k} disturbed something"
     | none => s1
-  { s2 with owedDisc := [], owedLose := [], lateOf := none }
+  -- EXTRA: at the end of the first step after a broker client got a new connection (the harness attaches the
+  -- write annotations to that step), each of its unanswered requests has been written again
+  -- ("the remaining unanswered requests are re-sent on a new one")
+  let isConn := match s2.cur with | some (.conn _ _) => true | _ => false
+  let stale := s2.reqs.filter (fun r => r.pending && s2.reconn.contains r.b && !r.resent)
+  let s3 := if isConn || stale.isEmpty then s2 else failX s2 s!"requests {stale.map (·.k)} were not (re-)sent on the new connection"
+  { s3 with owedDisc := [], owedLose := [], lateOf := none, reconn := if isConn then s3.reconn else [] }
 
 /-- a result that reports a cancellation -/
 def cancelledKind : OpRes → Bool
@@ -131,13 +141,16 @@ def stepItem (cfg : Cfg) (s : MSt) : TItem → MSt
     match e with
     | .advance dt => if dt < 0 then s else { s with now := s.now + dt }
     | .srtc _ g m => { s with seen := s.seen ++ [(g, m)] }
+    | .conn b v => { s with reconn := s.reconn.filter (fun e => !(e == b)) ++ (if v then [b] else []),
+                              reqs := if v then s.reqs.map (fun r => if r.b == b && r.pending then { r with resent := false } else r) else s.reqs }
     | .fire k _ =>
       (match getReq s k with
        | some r => if r.pending then resolve s k else { s with lateOf := some k }
        | none => s)
     | _ => s
   | .ob o => stepOb cfg s o
-  | .wrote k c => setReq s k (fun r => { r with conn := some c })
+  | .wrote k c => setReq s k (fun r => { r with conn := some c, resent := true })
+  | .exc c => failX s s!"exception {c} escaped into the reactor"
   | .lose c => { s with owedLose := s.owedLose.filter (fun x => !(x == c)), gone := s.gone ++ [c] }
   | .timers l =>
     -- after the step: exactly the unresolved requests own a pending timer, due at issued+bound, not overdue
